@@ -4,6 +4,7 @@ import (
 	"fmt"
 	"os"
 	"path/filepath"
+	"runtime"
 	"strings"
 	"sync"
 	"syscall"
@@ -12,6 +13,7 @@ import (
 	"github.com/rminnich/go9p"
 
 	"verif/core"
+	"verif/lab/srvlab"
 	"verif/wire"
 )
 
@@ -60,6 +62,10 @@ func c16Cases(tier string, seed int64) []core.Case {
 			defer func() { serverOffersDotu = false }()
 			return c16Run(ctx, t, false)
 		}})
+	}
+	for _, dotu := range []bool{true, false} {
+		dotu := dotu
+		cases = append(cases, core.Case{ID: fmt.Sprintf("walks-behind-a-request-that-moves-the-fid/dotu=%v", dotu), Run: func(ctx *core.Ctx) core.Result { return c16BusyFid(ctx, dotu) }})
 	}
 	for i := range cases {
 		cases[i].Run = guarded("C16", cases[i].Run)
@@ -714,4 +720,108 @@ func prefixClass(exist, n int) string {
 		return "all"
 	}
 	return "partial"
+}
+
+// c16BusyFid: walks are resolved from where the fid is when the walk is served, not from where it was when the walk
+// arrived. A fid F on a directory D is kept busy by a Tcreate of D's named pipe (the open(2) inside it waits for the
+// pipe's other end); Twalks from F — to a new fid, in place, with names that exist in D — arrive meanwhile and wait
+// for F. The pipe's other end opens; the create is answered (F now designates the pipe) and the walks are served: a
+// name is walked to only if it exists below what F designates at that time, as Lstat says.
+func c16BusyFid(ctx *core.Ctx, dotu bool) core.Result {
+	var res core.Result
+	e, err := newEnv(ctx, "c16busy", dotu, 1<<20)
+	if err != nil {
+		res.Inconclusive = err.Error()
+		return res
+	}
+	defer e.cleanup()
+	for round := 0; round < 6 && len(res.Violations) == 0; round++ {
+		ctx.Beat()
+		d := fmt.Sprintf("D%d", round)
+		_ = os.MkdirAll(filepath.Join(e.root, d, "a", "deep"), 0o755)
+		_ = os.MkdirAll(filepath.Join(e.root, d, "b"), 0o755)
+		_ = os.WriteFile(filepath.Join(e.root, d, "f"), []byte("x"), 0o644)
+		pipe := filepath.Join(e.root, d, "pipe")
+		if err := syscall.Mkfifo(pipe, 0o644); err != nil {
+			res.Inconclusive = "c16 busy: mkfifo: " + err.Error()
+			return res
+		}
+		rc, err := e.raw(8192, dotu)
+		if err != nil {
+			res.Inconclusive = err.Error()
+			return res
+		}
+		rr := &rawc{c: rc}
+		if w := rr.rpc(&wire.Msg{Type: wire.Twalk, Fid: 0, Newfid: 20, Wname: []string{d}}); w == nil || w.Type != wire.Rwalk {
+			res.Inconclusive = "c16 busy: walk to the directory failed"
+			return res
+		}
+		// the request that keeps F busy and moves it
+		_ = rc.Send(&wire.Msg{Type: wire.Tcreate, Tag: 900, Fid: 20, Name: "pipe", Perm: 0o644, Mode: 0})
+		buf := make([]byte, 2<<20)
+		blocked := false
+		for i := 0; i < 2000 && !blocked; i++ {
+			n := runtime.Stack(buf, true)
+			for _, g := range strings.Split(string(buf[:n]), "\n\n") {
+				if strings.Contains(g, "(*Ufs).Create") && strings.Contains(g, "syscall.") {
+					blocked = true
+				}
+			}
+			if !blocked {
+				time.Sleep(time.Millisecond)
+			}
+		}
+		if !blocked {
+			res.Count("create_not_blocked", 1)
+		}
+		type wk struct {
+			tag    uint16
+			newfid uint32
+			names  []string
+		}
+		walks := []wk{{901, 21, []string{"a"}}, {902, 22, []string{"b"}}, {903, 23, []string{"a", "deep"}}, {904, 24, []string{"f"}}, {905, 25, nil}, {906, 26, []string{"nosuch"}}}
+		if round%2 == 1 {
+			walks = append(walks, wk{907, 20, []string{"a"}}) // in place, last
+		}
+		for _, w := range walks {
+			_ = rc.Send(&wire.Msg{Type: wire.Twalk, Tag: w.tag, Fid: 20, Newfid: w.newfid, Wname: w.names})
+		}
+		time.Sleep(3 * time.Millisecond)
+		wf, werr := os.OpenFile(pipe, os.O_WRONLY|syscall.O_NONBLOCK, 0)
+		if werr != nil {
+			res.Inconclusive = "c16 busy: the pipe's other end cannot be opened: " + werr.Error()
+			rc.Hangup()
+			return res
+		}
+		cr, cerr := rc.WaitTag(900, srvlab.W)
+		moved := cerr == nil && cr.Msg != nil && cr.Msg.Type == wire.Rcreate
+		// where F is when the walks are served: the pipe if the create succeeded, D otherwise
+		from := filepath.Join(e.root, d)
+		if moved {
+			from = pipe
+		}
+		for _, w := range walks {
+			rp, err := rc.WaitTag(w.tag, srvlab.W)
+			res.Evals++
+			if err != nil || rp.Msg == nil {
+				res.Inconclusive = "c16 busy: a walk got no reply"
+				break
+			}
+			_, lerr := os.Lstat(from + "/" + strings.Join(w.names, "/"))
+			full := rp.Msg.Type == wire.Rwalk && len(rp.Msg.Wqid) == len(w.names)
+			if len(w.names) > 0 && full && lerr != nil {
+				res.Violate("C16;busy-fid;walked-to-a-name-that-is-not-there", fmt.Sprintf("a Twalk of %v from a fid that a Tcreate (answered before it) had moved to a named pipe was answered with %d qids: below what the fid designates there is no such name (Lstat: %v)", w.names, len(rp.Msg.Wqid), lerr),
+					map[string]interface{}{"dotu": dotu, "round": round, "names": w.names})
+				break
+			}
+			if w.newfid == 20 && full {
+				from = from + "/" + strings.Join(w.names, "/")
+			}
+		}
+		wf.Close()
+		res.Sig(fmt.Sprintf("busy-fid|%v|moved=%v|inplace=%v", dotu, moved, round%2 == 1))
+		rc.Hangup()
+	}
+	res.Sample(map[string]interface{}{"scenario": "walks queued on a fid that a blocked Tcreate moves to a named pipe", "dotu": dotu})
+	return res
 }
